@@ -358,6 +358,17 @@ def check_c20(tier, seed):
     run.cargo_build()
     thorough = tier == "thorough"
     g, d, _ = tlc_plain("BlockWatcher.tla", "BlockWatcher.cfg", wd)
+    # unbounded: the height invariant as an inductive invariant, discharged by Apalache (any height, any number of steps)
+    apa = []
+    for label, args in (("Init => IndInv", ["--init=Init", "--inv=IndInv", "--length=0"]),
+                        ("IndInv /\\ Next => IndInv'", ["--init=IndInit", "--inv=IndInv", "--length=1"]),
+                        ("IndInv => KnownIsMax", ["--init=IndInit", "--inv=KnownIsMax", "--length=0"]),
+                        ("IndInv => CaughtUp", ["--init=IndInit", "--inv=CaughtUp", "--length=0"])):
+        pa = subprocess.run(["timeout", "600", "apalache-mc", "check", "--cinit=ConstInit", f"--out-dir={wd}/apa", f"--run-dir={wd}/apa/run"] + args +
+                            [VERIF + "/spec/BlockWatcherA.tla"], cwd=wd, capture_output=True, text=True)
+        if "EXITCODE: OK" not in pa.stdout:
+            raise run.ToolError(f"Apalache could not discharge `{label}` of BlockWatcherA.tla (a defect of the specification, not of the code):\n" + pa.stdout[-1500:])
+        apa.append(label)
     # schedules from the specification
     cfg = open(VERIF + "/spec/BlockSched.cfg").read().replace("EmitRate = 20", f"EmitRate = {2 if thorough else 25}")
     open(wd + "/BlockSched.cfg", "w").write(cfg)
@@ -440,7 +451,8 @@ def check_c20(tier, seed):
         print(f"DRIFT: the real BlockWatcher took a step BlockWatcher.tla cannot explain (line {at} of {o})")
     samples = [run_of(outs[0], 1)[:14], run_of(outs[-1], 1)[:14]]
     cov = {"states": d, "transitions": g, "traces_validated_against_impl": len(jobs), "samples": samples,
-           "tlc_schedules_replayed": nsched, "random_schedules": len(jobs) - nsched, "concurrent_rounds_on_real_threads": mt_rounds, "trace_lines_validated": nlines,
+           "tlc_schedules_replayed": nsched, "random_schedules": len(jobs) - nsched, "concurrent_rounds_on_real_threads": mt_rounds,
+           "apalache_obligations_discharged": apa, "trace_lines_validated": nlines,
            "conformance": "drift" if drift else "accepted", "exhaustive": False,
            "rule": "BlockWatcher.tla: all interleavings of poll replies, failed polls, stale/repeated/ahead notifications and node "
                    "growth within the constants (exhaustive); real BlockWatcher: schedules sampled from every explored edge plus "
